@@ -26,6 +26,21 @@ One case = one object + one family of scenarios:
           of the right type (and None for optional ones), evolve() without
           argument on an object with a wrong id, evolve on an object carrying a
           raw manifest, evolve(id=...) (TypeError)
+  shapes  every container-valued argument (tuple / mapping attributes: entries,
+          parents, extra_headers, branches, metadata ...) GIVEN as tuple, list,
+          generator, iter(), filter / map / zip / chain / islice / reversed
+          object, deque, tuple / list / dict subclasses, an own one-shot iterator
+          class, an own re-iterable class, dict, OrderedDict, defaultdict,
+          MappingProxyType, ImmutableDict, items view, pairs ... - keeping, per
+          field and per route, exactly the shapes the code accepts today
+          (observed first with an explicit id) - in the constructor, in
+          from_dict and in evolve(); evolve of hashed and non-hashed fields,
+          alone, with another field, with raw_manifest, two shaped containers
+          together, on objects built without id / with the right id / with a
+          wrong id / under a raw manifest.  One-shot iterables are created
+          afresh for every call.  The object must be the one built from the
+          materialised tuple / dict and satisfy id == compute_hash(), check(),
+          swhid()
 """
 import datetime
 import hashlib
@@ -53,7 +68,13 @@ RULE = ("per kind (origin, snapshot, release, revision, directory, raw extrinsic
         "three cases: ids (no id, right id, all 160 single-bit flips, truncated, extended, random, zero id), raw "
         "(needed / empty / unneeded raw manifests x no id, right id, attributes' id, random id, flips), evolve (every "
         "attrs field with a changed value and None where optional, no-argument evolve on a wrong id, evolve under a raw "
-        "manifest, evolve(id=)); non-trivial = the case contains an id different from the right one or an evolve that "
+        "manifest, evolve(id=)), shapes (every tuple- or mapping-valued argument given as tuple / list / generator / iter / "
+        "filter / map / zip / chain / islice / reversed / deque / subclasses / own one-shot and re-iterable classes / dict / "
+        "OrderedDict / defaultdict / MappingProxyType / ImmutableDict / items view / pairs - only the shapes the constructor "
+        "resp. from_dict accept today, observed at run time - through the constructor, from_dict and evolve (alone, with "
+        "another field, with raw_manifest, two containers together; base without id, right id, wrong id, under a raw "
+        "manifest); the result must equal the object built from the materialised value and satisfy the property); "
+        "non-trivial = the case contains an id different from the right one or an evolve that "
         "changes the manifest; distinct = distinct (kind, object, family)")
 TRUSTED = ["the manifest of the attributes is obtained from the library's own git_objects.<kind>_git_object / url.encode() "
            "(their content is the subject of C02-C05, C15); hashlib.sha1 as reference for the oracle",
@@ -63,6 +84,10 @@ ASSUMPTIONS = ["objects pass their attrs validators (check() first runs attr.val
                "constructed are outside the property)",
                "ExtID has no swhid() in the code and no SWHID type exists for it: the SWHID clause is stated for the six "
                "kinds that have one (C07_swhid_extid_none records the absence)",
+               "container arguments: only the shapes the current constructor / from_dict accept without error and store "
+               "unchanged are exercised (e.g. today only Revision.extra_headers takes arbitrary iterables in the constructor; "
+               "parents / entries only tuples; branches / metadata only dict subclasses and ImmutableDict); a shape that "
+               "starts or stops being accepted is not a C07 matter",
                "a SWHID can only carry a 20-byte id (the SWHID constructor raises ValidationError otherwise): swhid() of an "
                "object built with a truncated/extended explicit id raises"]
 
@@ -190,21 +215,26 @@ def gen(rng, tier):
     # small families first, then the 170-id family
     for i in range(n_obj):
         for kind in KINDS:
-            for what in ("evolve", "raw", "ids"):
-                cases.append({"kind": kind, "spec": specs[kind][i], "what": what, "seed": rng.getrandbits(32)})
+            for what in ("evolve", "raw", "shapes", "ids"):
+                case = {"kind": kind, "spec": specs[kind][i], "what": what, "seed": rng.getrandbits(32)}
+                if what == "shapes" and tier != "quick":
+                    case["full"] = True          # every accepted shape in every context
+                cases.append(case)
     # the evidence samples are taken from the head of the stream: keep them small
-    head = [c for c in cases[:3 * len(KINDS)] if c["what"] != "ids"][:6]
+    head = [c for c in cases[:4 * len(KINDS)] if c["what"] in ("evolve", "raw")][:6]
     return head + [c for c in cases if not any(c is h for h in head)]
 
 
 def nontrivial(c):
-    return c.get("what") in ("ids", "raw", "evolve")
+    return c.get("what") in ("ids", "raw", "evolve", "shapes")
 
 
 def classify(c):
     ks = ["kind=" + c["kind"], "family=" + c["what"]]
     if c["kind"] == "release" and c["spec"].get("target") is None:
         ks.append("no-manifest(release without target)")
+    if c["what"] == "shapes":
+        ks.append("shapes:" + ("all" if c.get("full") else "sampled"))
     if c["what"] == "raw":
         ks.append("raw:needed+unneeded" if c["kind"] in ("release", "revision", "directory") else "raw:class-without-field")
     return ks
@@ -297,6 +327,127 @@ def _construct(cls, kw, raw=_ABSENT, idv=b""):
 
 def _enc_rawarg(raw):
     return "=" if raw is _ABSENT else hx(raw)
+
+
+# ------------------------------------------------------------------ shapes of container arguments
+class _Shaped:
+    """a container value to be GIVEN in a particular shape (list, generator, filter object, dict view ...): `fresh()`
+    makes a new value of that shape on every call (one-shot iterators are consumed by whoever reads them first),
+    `mat` is the materialised tuple / dict the resulting attribute must be equal to"""
+
+    def __init__(self, shape, make, mat):
+        self.shape, self.make, self.mat = shape, make, mat
+
+    def fresh(self):
+        return self.make()
+
+
+def _mat(v):
+    return v.mat if isinstance(v, _Shaped) else v
+
+
+def _fresh(v):
+    return v.fresh() if isinstance(v, _Shaped) else v
+
+
+def _differs(x, ref, names):
+    """names of the fields on which x differs from the reference object (built from materialised values)"""
+    out = []
+    for n in names:
+        try:
+            if getattr(x, n) != getattr(ref, n):
+                out.append(n)
+        except Exception:
+            out.append(n)
+    return out
+
+
+class _OneShot:
+    """an iterator class of our own (neither generator nor builtin)"""
+
+    def __init__(self, items):
+        self._l, self._i = list(items), 0
+
+    def __iter__(self):
+        return self
+
+    def __next__(self):
+        if self._i >= len(self._l):
+            raise StopIteration
+        self._i += 1
+        return self._l[self._i - 1]
+
+
+class _ReIterable:
+    """an iterable (not a sequence) that can be iterated any number of times"""
+
+    def __init__(self, items):
+        self._l = list(items)
+
+    def __iter__(self):
+        return iter(list(self._l))
+
+
+class _TupleSub(tuple):
+    pass
+
+
+class _ListSub(list):
+    pass
+
+
+class _DictSub(dict):
+    pass
+
+
+def seq_shapes(mat):
+    """[(shape name, factory)] for a tuple value"""
+    import collections
+    import itertools
+    mat = tuple(mat)
+    k = len(mat) // 2
+    sh = [("tuple", lambda: tuple(mat)), ("list", lambda: list(mat)), ("generator", lambda: (x for x in mat)),
+          ("iter", lambda: iter(list(mat))), ("filter", lambda: filter(lambda x: True, mat)),
+          ("map", lambda: map(lambda x: x, mat)), ("chain", lambda: itertools.chain(mat[:k], mat[k:])),
+          ("islice", lambda: itertools.islice(mat, len(mat))), ("reversed", lambda: reversed(mat[::-1])),
+          ("deque", lambda: collections.deque(mat)), ("tuple-subclass", lambda: _TupleSub(mat)),
+          ("list-subclass", lambda: _ListSub(mat)), ("one-shot-iterator", lambda: _OneShot(mat)),
+          ("re-iterable", lambda: _ReIterable(mat))]
+    if mat and all(isinstance(x, tuple) and len(x) == 2 for x in mat):
+        ks, vs = [a for a, _ in mat], [b for _, b in mat]
+        sh += [("zip", lambda: zip(ks, vs)), ("list-of-lists", lambda: [list(x) for x in mat]),
+               ("generator-of-generators", lambda: ((y for y in x) for x in mat))]
+        try:
+            if len(set(ks)) == len(ks):
+                sh.append(("dict-items", lambda: dict(zip(ks, vs)).items()))
+        except TypeError:
+            pass
+    return sh
+
+
+def map_shapes(mat):
+    """[(shape name, factory)] for a mapping value"""
+    import collections
+    import types
+    from swh.model.collections import ImmutableDict
+    items = list(mat.items())
+    return [("dict", lambda: dict(items)), ("ImmutableDict", lambda: ImmutableDict(dict(items))),
+            ("OrderedDict", lambda: collections.OrderedDict(items)), ("dict-subclass", lambda: _DictSub(items)),
+            ("defaultdict", lambda: collections.defaultdict(lambda: None, items)),
+            ("MappingProxyType", lambda: types.MappingProxyType(dict(items))), ("items-view", lambda: dict(items).items()),
+            ("list-of-pairs", lambda: list(items)), ("tuple-of-pairs", lambda: tuple(items)),
+            ("generator-of-pairs", lambda: (x for x in items)), ("iter-of-pairs", lambda: iter(list(items))),
+            ("zip", lambda: zip([a for a, _ in items], [b for _, b in items])),
+            ("ImmutableDict-from-generator", lambda: ImmutableDict(x for x in items))]
+
+
+def shapes_of(value):
+    from swh.model.collections import ImmutableDict
+    if isinstance(value, (tuple, list)):
+        return seq_shapes(value)
+    if isinstance(value, (dict, ImmutableDict)):
+        return map_shapes(dict(value.items()))
+    return []
 
 
 def alt_values(kind, name, cur, a, rng):
@@ -405,12 +556,64 @@ def impl(c):
     steps = []
     res = {"attrs": None if am is None else am.hex(), "has_raw": has_raw, "steps": steps}
 
-    def build_step(label, raw, idv):
+    def build_step(label, raw, idv, builder=None, ref_fields=None):
+        """builder: another construction route (shaped keyword arguments, from_dict); the object must then equal the
+        probe on ref_fields"""
         if only and label not in only:
             return
         st = {"label": label, "rawarg": _enc_rawarg(raw), "id": idv.hex()}
         try:
-            st["obs"] = observe(_construct(cls, kw, raw, idv))
+            x = _construct(cls, kw, raw, idv) if builder is None else builder()
+            st["obs"] = observe(x)
+            if ref_fields is not None:
+                st["obs"]["differs"] = _differs(x, probe, ref_fields)
+        except Exception as e:
+            st["error"] = exc_class(e)
+        steps.append(st)
+
+    junk = b"junk " + bytes(rng.randrange(256) for _ in range(rng.randrange(0, 20)))
+
+    def evolve_step(label, base_raw, base_id, kwargs):
+        """kwargs values may be _Shaped: the call receives a FRESH value of that shape, the reference object (and the
+        manifest sent to the model) is built from the materialised tuple / dict"""
+        if only and label not in only and label.split("=")[0] not in only:
+            return
+        st = {"label": label, "rawarg": _enc_rawarg(base_raw), "id": base_id.hex()}
+        try:
+            base = _construct(cls, kw, base_raw, base_id)
+        except Exception as e:
+            st["skip"] = "base cannot be built: " + exc_class(e)
+            steps.append(st)
+            return
+        ch = {"attrs": "=", "raw": "=", "id": "="}
+        plain = {k: _mat(v) for k, v in kwargs.items() if k not in ("id", "raw_manifest")}
+        if "raw_manifest" in kwargs:
+            ch["raw"] = hx(kwargs["raw_manifest"])
+        if "id" in kwargs:
+            ch["id"] = hx(kwargs["id"])
+        ref = base
+        if plain:
+            # is the change accepted by the validators at all?  (attrs' own evolve = the constructor)
+            try:
+                ref = attr.evolve(base, **plain)
+            except Exception as e:
+                st["skip"] = "new value refused by the validators: " + exc_class(e)
+                steps.append(st)
+                return
+            try:
+                m2 = _manifest_fn(kind)(ref)
+                ch["attrs"] = hx(m2)
+            except TypeError:
+                ch["attrs"] = "-"
+            except Exception as e:
+                st["skip"] = "manifest function raises " + exc_class(e)
+                steps.append(st)
+                return
+        st["change"] = ch
+        try:
+            res = base.evolve(**{k: _fresh(v) for k, v in kwargs.items()})
+            st["obs"] = observe(res)
+            st["obs"]["differs"] = _differs(res, ref, plain)
         except Exception as e:
             st["error"] = exc_class(e)
         steps.append(st)
@@ -457,48 +660,6 @@ def impl(c):
                 build_step("raw-same-flip", am, _flip(right, rng.randrange(160)))
             build_step("raw-None-noid", None, b"")
     elif what == "evolve":
-        junk = b"junk " + bytes(rng.randrange(256) for _ in range(rng.randrange(0, 20)))
-
-        def evolve_step(label, base_raw, base_id, kwargs):
-            if only and label not in only and label.split("=")[0] not in only:
-                return
-            st = {"label": label, "rawarg": _enc_rawarg(base_raw), "id": base_id.hex()}
-            try:
-                base = _construct(cls, kw, base_raw, base_id)
-            except Exception as e:
-                st["skip"] = "base cannot be built: " + exc_class(e)
-                steps.append(st)
-                return
-            ch = {"attrs": "=", "raw": "=", "id": "="}
-            plain = {k: v for k, v in kwargs.items() if k not in ("id", "raw_manifest")}
-            if "raw_manifest" in kwargs:
-                ch["raw"] = hx(kwargs["raw_manifest"])
-            if "id" in kwargs:
-                ch["id"] = hx(kwargs["id"])
-            if plain:
-                # is the change accepted by the validators at all?  (attrs' own evolve = the constructor)
-                try:
-                    ref = attr.evolve(base, **plain)
-                except Exception as e:
-                    st["skip"] = "new value refused by the validators: " + exc_class(e)
-                    steps.append(st)
-                    return
-                try:
-                    m2 = _manifest_fn(kind)(ref)
-                    ch["attrs"] = hx(m2)
-                except TypeError:
-                    ch["attrs"] = "-"
-                except Exception as e:
-                    st["skip"] = "manifest function raises " + exc_class(e)
-                    steps.append(st)
-                    return
-            st["change"] = ch
-            try:
-                st["obs"] = observe(base.evolve(**kwargs))
-            except Exception as e:
-                st["error"] = exc_class(e)
-            steps.append(st)
-
         base_raw = _ABSENT
         if am is None and has_raw:
             base_raw = junk          # a Release without target can only exist with a raw manifest or an explicit id
@@ -536,6 +697,127 @@ def impl(c):
             if am is not None:
                 evolve_step("under-unneeded-raw:%s" % f0, am, b"", {f0: v0})
             evolve_step("attr-and-raw:%s" % f0, base_raw, b"", {f0: v0, "raw_manifest": junk})
+    elif what == "shapes":
+        # container-valued arguments given in every shape the code accepts TODAY (observed first, with an explicit id so
+        # that nothing is hashed): constructor, from_dict, evolve.  Whatever the shape, the object must be the one built
+        # from the materialised tuple / dict and satisfy the property.
+        full = bool(c.get("full"))
+        pid = b"\x01" * 20
+        wrong = _flip(right, rng.randrange(160)) if right is not None else _sha(rng)
+        names = [a.name for a in attr.fields(cls) if a.name not in ("id", "raw_manifest")]
+        fdict = attr.fields_dict(cls)
+        noid_raw = junk if (am is None and has_raw) else _ABSENT        # a Release without target needs a raw manifest
+        report = res.setdefault("shapes", {})
+
+        def some(l, n):
+            # quick: n of them; thorough: all of them in the main contexts, 3n in the secondary ones
+            l = list(l)
+            if full:
+                n = len(l) if n >= 4 else 3 * n
+            return l if len(l) <= n else rng.sample(l, n)
+
+        def ctor(f, mk, raw, idv):
+            return lambda: _construct(cls, dict(kw, **{f: mk()}), raw, idv)
+
+        accepted = {}
+        for f in names:
+            # the caller's own argument (a legacy revision carries its extra headers inside `metadata`), in every shape;
+            # accepted = the constructor takes it and stores what it stores for the plain argument
+            acc, refused = [], []
+            for nm, mk in shapes_of(kw.get(f, getattr(probe, f))):
+                try:
+                    ok = not _differs(ctor(f, mk, _ABSENT, pid)(), probe, [f])
+                except Exception:
+                    ok = False
+                (acc if ok else refused).append((nm, mk))
+            if acc or refused:
+                report["ctor:" + f] = {"accepted": [n for n, _ in acc], "refused": [n for n, _ in refused]}
+            if acc:
+                accepted[f] = acc
+        # --- constructor
+        for f, acc in accepted.items():
+            for nm, mk in some(acc, 4):
+                build_step("ctor:%s=%s:noid" % (f, nm), noid_raw, b"", ctor(f, mk, noid_raw, b""), [f])
+            for nm, mk in some(acc, 1):
+                if right is not None:
+                    build_step("ctor:%s=%s:right-id" % (f, nm), _ABSENT, right, ctor(f, mk, _ABSENT, right), [f])
+                build_step("ctor:%s=%s:wrong-id" % (f, nm), _ABSENT, wrong, ctor(f, mk, _ABSENT, wrong), [f])
+                if has_raw:
+                    build_step("ctor:%s=%s:raw" % (f, nm), junk, b"", ctor(f, mk, junk, b""), [f])
+        # --- from_dict
+        contexts = [("noid", noid_raw, b"")]
+        if right is not None:
+            contexts.append(("right-id", _ABSENT, right))
+        contexts.append(("wrong-id", _ABSENT, wrong))
+        if has_raw:
+            contexts.append(("raw", junk, b""))
+        for ci, (tag, raw, idv) in enumerate(contexts):
+            try:
+                d0 = _construct(cls, kw, raw, idv or pid).to_dict()
+                d_probe = dict(d0, id=pid)
+                if _differs(cls.from_dict(dict(d_probe)), probe, names):
+                    continue
+            except Exception:
+                continue                      # to_dict / from_dict do not round-trip this object today: not this property
+            if not idv:
+                d0.pop("id", None)
+
+            def fd(k, mk, d0=d0):
+                return lambda: cls.from_dict(dict(d0) if k is None else dict(d0, **{k: mk()}))
+            build_step("from_dict:%s:plain" % tag, raw, idv, fd(None, None), names)
+            for k in sorted(d0):
+                if k not in names or not shapes_of(getattr(probe, k)):
+                    continue                  # only the container-valued attributes (not nested person / date dicts)
+                acc = []
+                for nm, mk in shapes_of(d0[k]):
+                    try:
+                        if not _differs(cls.from_dict(dict(d_probe, **{k: mk()})), probe, names):
+                            acc.append((nm, mk))
+                    except Exception:
+                        pass
+                if ci == 0 and shapes_of(d0[k]):
+                    report["from_dict:" + k] = {"accepted": [n for n, _ in acc],
+                                                "refused": [n for n, _ in shapes_of(d0[k]) if n not in [m for m, _ in acc]]}
+                for nm, mk in (some(acc, 4) if ci == 0 else some(acc, 1)):
+                    build_step("from_dict:%s:%s=%s" % (tag, k, nm), raw, idv, fd(k, mk), names)
+        # --- evolve
+        econtexts = [("plain", _ABSENT if am is not None or not has_raw else junk, b"")]
+        if right is not None:
+            econtexts.append(("on-right-id", _ABSENT, right))
+        econtexts.append(("on-wrong-id", _ABSENT if am is not None or not has_raw else junk, wrong))
+        if has_raw:
+            econtexts += [("under-raw", junk, b""), ("under-raw-wrong-id", junk, wrong)]
+        shaped = {}          # field -> [_Shaped of a NEW value] (only shapes the constructor accepts)
+        for f, acc in accepted.items():
+            new = [v for v in alt_values(kind, f, getattr(probe, f), fdict[f], rng) if v is not None][:1]
+            vals = new + [getattr(probe, f)]
+            for j, v in enumerate(vals):
+                byname = dict(shapes_of(v))
+                lst = [_Shaped(nm, byname[nm], v) for nm, _ in acc if nm in byname]
+                if j == 0:
+                    shaped[f] = lst
+                for ci, (tag, raw, idv) in enumerate(econtexts):
+                    if j == 1 and not full and ci not in (0, len(econtexts) - 1):
+                        continue
+                    for sh in (some(lst, 5) if (ci == 0 and j == 0) else some(lst, 1)):
+                        evolve_step("evolve:%s:%s=%s(%s)" % (tag, f, sh.shape, "new" if j == 0 else "same"), raw, idv, {f: sh})
+        # together: a shaped container with another field / with raw_manifest / with a second shaped container
+        base_raw = econtexts[0][1]
+        for f, lst in shaped.items():
+            others = [n for n in names if n != f]
+            for sh in some(lst, 2):
+                if others:
+                    g = others[rng.randrange(len(others))]
+                    gv = alt_values(kind, g, getattr(probe, g), fdict[g], rng)[0]
+                    evolve_step("evolve:with-%s:%s=%s" % (g, f, sh.shape), base_raw, b"", {f: sh, g: gv})
+                    evolve_step("evolve:with-%s-on-wrong-id:%s=%s" % (g, f, sh.shape), base_raw, wrong, {g: gv, f: sh})
+                if has_raw:
+                    evolve_step("evolve:with-raw_manifest:%s=%s" % (f, sh.shape), base_raw, b"", {f: sh, "raw_manifest": junk})
+                    evolve_step("evolve:dropping-raw:%s=%s" % (f, sh.shape), junk, b"", {f: sh, "raw_manifest": None})
+                for f2, lst2 in shaped.items():
+                    if f2 != f and lst2:
+                        sh2 = lst2[rng.randrange(len(lst2))]
+                        evolve_step("evolve:pair:%s=%s+%s=%s" % (f, sh.shape, f2, sh2.shape), base_raw, b"", {f: sh, f2: sh2})
     return res
 
 
@@ -674,6 +956,9 @@ def oracle(c, ires, mres):
             want_sw = "swh:1:%s:%s" % (tag, o["id"]) if len(o["id"]) == 40 else "!ValidationError"
             if o["swhid"] != want_sw:
                 return lab + "swhid() is %s, expected %s" % (o["swhid"], want_sw)
+        if o.get("differs"):
+            return lab + ("the object differs on %s from the one built from the materialised value (the shape in which a "
+                          "container argument is given must not matter)" % ", ".join(o["differs"]))
     return None
 
 
